@@ -200,6 +200,28 @@ Section ScannerProofs.
       forall d' e, split st (d ++ d') e = shift adv (split st' (zdrop adv d ++ d') e)
   }.
 
+  Lemma shift_0 r : shift 0 r = r.
+  Proof. destruct r; reflexivity. Qed.
+
+  Lemma skips_nil st : skips st [].
+  Proof. intros x e. cbn [app]. rewrite zlen_nil, shift_0. reflexivity. Qed.
+
+  (* the common case: tokens decided before EOF persist verbatim, and a nil token before EOF
+     means "advance 0, state untouched" *)
+  Lemma stable_simple : wb ->
+    (forall st d adv t st', split st d false = SOk adv (Some t) st' ->
+       forall d' e, split st (d ++ d') e = SOk adv (Some t) st') ->
+    (forall st d adv st', split st d false = SOk adv None st' -> adv = 0 /\ st' = st) ->
+    stable.
+  Proof.
+    intros W Ht Hm. split; [exact W| |].
+    - intros st d adv t st' Hs d' e. exists 0. split; [lia|]. split.
+      + rewrite Z.add_0_r. apply Ht. exact Hs.
+      + replace (ztake 0 (zdrop adv (d ++ d'))) with (@nil Z) by reflexivity. apply skips_nil.
+    - intros st d adv st' Hs d' e. destruct (Hm _ _ _ _ Hs) as [-> ->].
+      rewrite shift_0. reflexivity.
+  Qed.
+
   Lemma skips_drain : wb -> forall st p, skips st p ->
     forall e y, drainF e st (p ++ y) = drainF e st y.
   Proof.
